@@ -504,6 +504,11 @@ func (v *Validator) typeOfComparison(env *requestEnv, left, right ast.IsNode, ca
 	if len(errs) > 0 {
 		return typeBool{}, caps, errors.Join(errs...)
 	}
+	// Each operand is comparable on its own; the comparison is only defined
+	// between two operands of the same type (Long, datetime or duration).
+	if lt != nil && rt != nil && compareCedarType(lt, rt) != 0 {
+		return typeBool{}, caps, unexpectedTypeErr(cedarTypeName(lt), rt)
+	}
 	return typeBool{}, caps, nil
 }
 
